@@ -2,6 +2,8 @@ import Percival.Proofs.Parsenum
 import Percival.Proofs.Humansize
 import Percival.Proofs.ParsenumFloat
 import Percival.Proofs.IeeeStrtod
+import Percival.Proofs.HumansizeExec
+import Percival.Proofs.ParsenumStep
 /-!
 # C16 — numeric text parsing is exact
 
@@ -358,5 +360,207 @@ theorem humansize_constants :
   decide
 
 end humansize
+
+/-! ## The function the executable runs
+
+`pmodel parsenum` (components `pn`, `pf`, `hs`) is `parse` / `Model.ParsenumStep.stepOp` / `render`
+(`Driver/Parsenum.lean`).  The theorems below are about `stepOp`'s typed output: `Out.hsParse l1 l2` and
+`Out.hsFmt l1 l2` are printed `<l1> | <l2>`; `Out.int o ooc` is printed `<o.answer> | x=<*x>` (with `ooc`:
+`ooc | <o.answer> x=<*x>`); `Out.float o` is printed `<answer> | x=<token of *x>`. -/
+
+section exec
+open Percival.Model.ParsenumStep Percival.Spec.HumansizeExec Percival.Spec.Humansize
+open Percival.Proofs.HumansizeExec Percival.Proofs.ParsenumStep
+
+/-- `hs_parse`: the L1 part is the specification's answer — `ok v` exactly when the C string matches
+    `[0-9]+ ?[kMGTPE]?B?`, denotes `v` and `v ≤ 2^64 − 1`; `fail` exactly when there is no such `v`
+    (malformed, or out of range). -/
+theorem exec_hs_parse_spec (bs : List UInt8) :
+    ∃ l1 l2, stepOp (.hsParse bs) = .hsParse l1 l2 ∧
+      (∀ v, l1 = some v ↔ Parses (cstr bs) v ∧ v ≤ U64MAX) ∧
+      (l1 = none ↔ ¬ ∃ v, Parses (cstr bs) v ∧ v ≤ U64MAX) :=
+  ⟨_, _, rfl, specParse_some_iff _, specParse_none_iff _⟩
+
+example : stepOp (.hsParse [0x31, 0x38, 0x20, 0x45, 0x42, 0x00, 0x37]) =
+    .hsParse (some 18000000000000000000) (.ok 18000000000000000000) := by decide +kernel     -- "18 EB"
+example : stepOp (.hsParse [0x31, 0x39, 0x20, 0x45, 0x42]) = .hsParse none .fail := by decide +kernel   -- "19 EB"
+
+/-- `hs_parse`: the L2 part (the model of `humansize_parse`) is the L1 part, on every line. -/
+theorem exec_hs_parse_model_eq_spec (bs : List UInt8) :
+    ∃ l1, stepOp (.hsParse bs) = .hsParse l1 (match l1 with | some v => .ok v | none => .fail) :=
+  ⟨specParse (cstr bs), congrArg (Out.hsParse (specParse (cstr bs))) (parse_eq_spec (cstr bs))⟩
+
+example : stepOp (.hsParse [0x31, 0x20, 0x20, 0x42]) = .hsParse none .fail := by decide +kernel         -- "1  B"
+
+/-- `hs_fmt`: for every `uint64_t` the L1 part is the text of *the* largest documented form not exceeding `n`
+    (there is exactly one such form; it always has a text). -/
+theorem exec_hs_fmt_spec (n : Nat) (hn : n < 2 ^ 64) :
+    ∃ l1 l2, stepOp (.hsFmt n) = .hsFmt l1 l2 ∧
+      (∀ str, l1 = some str ↔ ∃ f, IsLargestBelow f n ∧ f.render = some str) ∧
+      (∃ str, l1 = some str) ∧
+      (∀ f g, IsLargestBelow f n → IsLargestBelow g n → f = g) := by
+  refine ⟨specFormat n, Model.Humansize.format n, by simp only [stepOp, if_pos hn], specFormat_some_iff n,
+    specFormat_isSome n, ?_⟩
+  exact fun f g hf hg => isLargestBelow_unique hf hg
+
+example : IsLargestBelow (.dec 9 9 1) 9999 ∧ Form.render (.dec 9 9 1) = some [0x39, 0x2e, 0x39, 0x20, 0x6b, 0x42] := by   -- "9.9 kB"
+  refine ⟨?_, by decide⟩
+  simpa using Percival.Proofs.Humansize.form_largest 9999 1 1 (by omega) (by omega) (by simp) (by omega) (by omega)
+
+/-- `hs_fmt`: the L2 part (the model of `humansize`) is the L1 part, for every `uint64_t`; a larger argument
+    (not a `uint64_t`) is answered `skip`. -/
+theorem exec_hs_fmt_model_eq_spec (n : Nat) :
+    (n < 2 ^ 64 → ∃ str, stepOp (.hsFmt n) = .hsFmt (some str) (.str str)) ∧
+    (2 ^ 64 ≤ n → stepOp (.hsFmt n) = .skip) := by
+  constructor
+  · intro hn
+    obtain ⟨str, h1, h2⟩ := format_eq_spec n (by omega)
+    exact ⟨str, by simp only [stepOp, if_pos hn, h1, h2]⟩
+  · intro hn
+    simp only [stepOp, if_neg (show ¬ n < 2 ^ 64 by omega)]
+
+-- 2^64 − 1 is printed "18 EB" in both parts (L1 through the theorem: the enumeration of 7480 forms is too deep for
+-- the kernel's evaluator)
+example : stepOp (.hsFmt 18446744073709551615) =
+    .hsFmt (some [0x31, 0x38, 0x20, 0x45, 0x42]) (.str [0x31, 0x38, 0x20, 0x45, 0x42]) :=
+  hsFmt_of_model (by decide) (by decide +kernel)
+example : stepOp (.hsFmt 18446744073709551616) = .skip := by decide +kernel
+
+/-- `pn`, integer target with bounds, within the contract (`BoundsOk`: the bounds are values of their C types
+    and, for a signed target, lie within the target type): the line is not marked `ooc`, and its L1 part — the
+    caller's view `o.answer` of the outcome — is `ok v` exactly when the string is a numeral of value `v` within
+    the bounds and the type, `EINVAL` exactly when it is not a numeral, `ERANGE` exactly when it is a numeral out
+    of range, and never `abort`; on `ok v` the L2 part (`*x`) is `v`. -/
+theorem exec_pn_int_bounds (t : IntTy) (bs : List UInt8) (min max : CVal) (base : Nat) (trailing : Bool)
+    (hbase : ValidBase base) (hb : BoundsOk t min max) :
+    ∃ o, stepOp (.pnInt t base trailing (some (min, max)) bs) = .int o false ∧
+      (∀ v, o.answer = .ok v ↔ Accepts base trailing (cstr bs) v ∧ InRange t min max v) ∧
+      (o.answer = .einval ↔ ¬ ∃ v, Accepts base trailing (cstr bs) v) ∧
+      (o.answer = .erange ↔ ∃ v, Accepts base trailing (cstr bs) v ∧ ¬ InRange t min max v) ∧
+      o.answer ≠ .abort ∧
+      (∀ v, o.answer = .ok v → o = .done v .ok) := by
+  refine ⟨parsenumEx6 t (cstr bs) min max base trailing, by simp only [stepOp, isOoc_of_boundsOk hb],
+    fun v => parsenum_ok_iff t bs min max base trailing v hbase hb,
+    parsenum_einval_iff t bs min max base trailing hbase hb,
+    parsenum_erange_iff t bs min max base trailing hbase hb,
+    parsenum_never_aborts t bs min max base trailing hb, ?_⟩
+  intro v h
+  generalize parsenumEx6 t (cstr bs) min max base trailing = o at h
+  cases o with
+  | abort => cases h
+  | done x e => cases e <;> simp only [Outcome.answer] at h <;> cases h; rfl
+
+-- " 0x10" into a uint64_t within [-5, 16], base 0; "-129" into an int8_t
+example : stepOp (.pnInt .u64 0 false (some (.s (-5), .u 16)) [0x20, 0x30, 0x78, 0x31, 0x30]) = .int (.done 16 .ok) false := by
+  decide +kernel
+example : stepOp (.pnInt .i8 10 false (some (.s (-128), .s 127)) [0x2d, 0x31, 0x32, 0x39]) = .int (.done 0 .erange) false := by
+  decide +kernel
+example : ValidBase 10 ∧ BoundsOk .i8 (.s (-128)) (.s 127) := by
+  refine ⟨Or.inr (by omega), ?_, ?_, ?_⟩ <;>
+    simp [CVal.Valid, CVal.toInt, InType, IntTy.lo, IntTy.hi, IMIN, IMAX, IntTy.signed, IntTy.bits]
+
+/-- `pn`, integer target with bounds: the line is marked `ooc` (answer compared at L2 only) exactly when the
+    target is signed and a bound lies outside the target type — which `BoundsOk` excludes. -/
+theorem exec_pn_int_ooc (t : IntTy) (bs : List UInt8) (min max : CVal) (base : Nat) (trailing : Bool) :
+    ∃ o ooc, stepOp (.pnInt t base trailing (some (min, max)) bs) = .int o ooc ∧
+      (ooc = true ↔ t.signed = true ∧ ¬ (InType t min.toInt ∧ InType t max.toInt)) ∧
+      (BoundsOk t min max → ooc = false) :=
+  ⟨_, _, rfl, isOoc_iff t min max, isOoc_of_boundsOk⟩
+
+example : stepOp (.pnInt .i8 0 false (some (.s (-500), .s 5)) [0x31]) = .int (.done 1 .ok) true := by decide +kernel
+example : stepOp (.pnInt .u8 0 false (some (.s (-500), .s 5)) [0x31]) = .int (.done 1 .ok) false := by decide +kernel
+
+/-- `pn`, integer target, bound-less form: never marked `ooc`; for an unsigned target the L1 part is `ok v`
+    exactly when the string is a numeral of value `v` within the type, `EINVAL` / `ERANGE` as above; for a signed
+    target (documented misuse) it is `abort`. -/
+theorem exec_pn_int_nobounds (t : IntTy) (bs : List UInt8) (base : Nat) (trailing : Bool) (hbase : ValidBase base) :
+    ∃ o, stepOp (.pnInt t base trailing none bs) = .int o false ∧
+      (t.signed = false →
+        (∀ v, o.answer = .ok v ↔ Accepts base trailing (cstr bs) v ∧ InType t v) ∧
+        (o.answer = .einval ↔ ¬ ∃ v, Accepts base trailing (cstr bs) v) ∧
+        (o.answer = .erange ↔ ∃ v, Accepts base trailing (cstr bs) v ∧ ¬ InType t v)) ∧
+      (t.signed = true → o = .abort) := by
+  refine ⟨parsenumEx4 t (cstr bs) base trailing, rfl, fun ht => ⟨fun v => parsenumNoBounds_ok_iff t bs base trailing v hbase ht,
+    parsenumNoBounds_einval_iff t bs base trailing hbase ht, parsenumNoBounds_erange_iff t bs base trailing hbase ht⟩, ?_⟩
+  intro ht
+  exact ex4_signed_abort t (cstr bs) base trailing ht
+
+example : stepOp (.pnInt .u32 16 false none [0x66, 0x66]) = .int (.done 255 .ok) false := by decide +kernel
+example : stepOp (.pnInt .i32 16 false none [0x66, 0x66]) = .int .abort false := by decide +kernel
+
+end exec
+
+section execFloat
+open Percival.Spec.FloatNumeral Percival.Model.Strtod Percival.Model.ParsenumFloat Percival.Proofs.ParsenumFloat
+open Percival.Spec.Ieee Percival.Proofs.Ieee
+open Percival.Model.ParsenumStep Percival.Proofs.ParsenumStep
+
+/-- `pn`, `float` / `double` target with bounds, `base = 0`: the printed outcome is `FOut.of fo` for an outcome
+    `fo` of the macro whose caller's view `fo.answer` (the L1 part) is `ok v` exactly when the string is a floating
+    numeral whose correctly rounded `double` value `d` (IEEE nearest-even, `Spec/Ieee.lean`) has no range error and
+    lies within the bounds, `v` being `d` stored into the target (rounded once more for `float`); `EINVAL` exactly
+    when it is not a floating numeral; `ERANGE` exactly when the rounded value is out of bounds or the conversion
+    has a range error; and the token printed for the datum left in `*x` (both parts) denotes that datum exactly. -/
+theorem exec_pn_float_bounds (t : FTy) (bs : List UInt8) (min max : FlLit) (trailing : Bool) :
+    ∃ fo : FOutcome, stepOp (.pnFloat t 0 trailing (some (min, max)) bs) = .float (.of fo) ∧
+      (∀ v, fo.answer = .ok v ↔
+        ∃ neg sub d, FAccepts trailing (cstr bs) neg sub ∧ Converts neg sub d ∧ ¬ ConvRangeError neg sub ∧
+          Fl.lt d min.toFl = false ∧ Fl.lt max.toFl d = false ∧ (t = .f64 → v = d) ∧ (t = .f32 → Narrows d v)) ∧
+      (fo.answer = .einval ↔ ¬ ∃ neg sub, FAccepts trailing (cstr bs) neg sub) ∧
+      (fo.answer = .erange ↔
+        ∃ neg sub d, FAccepts trailing (cstr bs) neg sub ∧ Converts neg sub d ∧
+          (Fl.lt d min.toFl = true ∨ Fl.lt max.toFl d = true ∨ ConvRangeError neg sub)) ∧
+      (∀ x e, fo = .done x e → FOut.of fo = .done (flTok x) e ∧ (flTok x).toFl = x) := by
+  refine ⟨parsenumEx6 t (cstr bs) min.toFl max.toFl 0 trailing, rfl,
+    parsenum_float_ok_iff t bs min.toFl max.toFl trailing,
+    parsenum_float_einval_iff t bs min.toFl max.toFl trailing,
+    parsenum_float_erange_iff t bs min.toFl max.toFl trailing, ?_⟩
+  intro x e h
+  rw [h]
+  exact ⟨rfl, flTok_toFl x (ex6_done_nonneg h)⟩
+
+-- "0.1" into a double within [0, 1·2^10]: 3602879701896397·2^-55; into a float: 13421773·2^-27; "5" above max = 4
+example : stepOp (.pnFloat .f64 0 false (some (.bin false 0 0, .bin false 1 10)) [0x30, 0x2e, 0x31]) =
+    .float (.done (.down false 3602879701896397 55) .ok) := by decide +kernel
+example : stepOp (.pnFloat .f32 0 false (some (.inf true, .inf false)) [0x30, 0x2e, 0x31]) =
+    .float (.done (.down false 13421773 27) .ok) := by decide +kernel
+example : stepOp (.pnFloat .f32 0 true (some (.bin false 0 0, .bin false 1 2)) [0x35]) =
+    .float (.done (.up false 5 0) .erange) := by decide +kernel
+
+/-- `pn`, `float` / `double` target, bound-less form, `base = 0`: as above with the bounds `−∞`, `+∞`. -/
+theorem exec_pn_float_nobounds (t : FTy) (bs : List UInt8) (trailing : Bool) :
+    ∃ fo : FOutcome, stepOp (.pnFloat t 0 trailing none bs) = .float (.of fo) ∧
+      (∀ v, fo.answer = .ok v ↔
+        ∃ neg sub d, FAccepts trailing (cstr bs) neg sub ∧ Converts neg sub d ∧ ¬ ConvRangeError neg sub ∧
+          Fl.lt d (.inf true) = false ∧ Fl.lt (.inf false) d = false ∧ (t = .f64 → v = d) ∧ (t = .f32 → Narrows d v)) ∧
+      (fo.answer = .einval ↔ ¬ ∃ neg sub, FAccepts trailing (cstr bs) neg sub) ∧
+      (fo.answer = .erange ↔
+        ∃ neg sub d, FAccepts trailing (cstr bs) neg sub ∧ Converts neg sub d ∧
+          (Fl.lt d (.inf true) = true ∨ Fl.lt (.inf false) d = true ∨ ConvRangeError neg sub)) ∧
+      (∀ x e, fo = .done x e → FOut.of fo = .done (flTok x) e ∧ (flTok x).toFl = x) := by
+  refine ⟨parsenumEx6 t (cstr bs) (.inf true) (.inf false) 0 trailing, rfl,
+    parsenum_float_ok_iff t bs (.inf true) (.inf false) trailing,
+    parsenum_float_einval_iff t bs (.inf true) (.inf false) trailing,
+    parsenum_float_erange_iff t bs (.inf true) (.inf false) trailing, ?_⟩
+  intro x e h
+  rw [h]
+  exact ⟨rfl, flTok_toFl x (ex6_done_nonneg h)⟩
+
+-- "1e400" overflows: ERANGE, +inf left in *x; "-0x1.8p1" = −3
+example : stepOp (.pnFloat .f64 0 false none [0x31, 0x65, 0x34, 0x30, 0x30]) = .float (.done (.inf false) .erange) := by
+  decide +kernel
+example : stepOp (.pnFloat .f64 0 false none [0x2d, 0x30, 0x78, 0x31, 0x2e, 0x38, 0x70, 0x31]) =
+    .float (.done (.up true 3 0) .ok) := by decide +kernel
+
+/-- `pn`, `float` / `double` target with `base ≠ 0` (documented misuse): `abort`. -/
+theorem exec_pn_float_base_nonzero (t : FTy) (bs : List UInt8) (bounds : Option (FlLit × FlLit)) (base : Nat)
+    (trailing : Bool) (hb : base ≠ 0) : stepOp (.pnFloat t base trailing bounds bs) = .float .abort := by
+  cases bounds with
+  | none => simp only [stepOp, Model.ParsenumFloat.parsenumEx4, ex6_float_abort _ _ _ _ _ _ hb, FOut.of]
+  | some b => obtain ⟨mn, mx⟩ := b; simp only [stepOp, ex6_float_abort _ _ _ _ _ _ hb, FOut.of]
+
+example : stepOp (.pnFloat .f64 10 false none [0x31]) = .float .abort := by decide +kernel
+
+end execFloat
 
 end Percival.C16
